@@ -130,14 +130,14 @@ def evalargs(src):
 class RefCallable:
     """a def / block / body bound to the level it is written in"""
 
-    def __init__(self, it, name, sig, body, level, inline=False, ctx=None, is_body=False):
+    def __init__(self, it, name, sig, body, level, inline=False, ctx=None, is_body=False, outer=None):
         self.it, self.name, self.sig, self.body, self.level, self.inline = it, name, sig, body, level, inline
-        self.ctx, self.is_body = ctx, is_body
+        self.ctx, self.is_body, self.outer = ctx, is_body, outer
 
     def __call__(self, *a, **kw):
         it = self.it
         params = bind(self.sig, a, kw)
-        env = Env(self.level, params, it.take_caller(), inline=self.inline, ctx=self.ctx, is_body=self.is_body)
+        env = Env(self.level, params, it.take_caller(), inline=self.inline, ctx=self.ctx, is_body=self.is_body, outer=self.outer)
         it.run(self.body, env)
         return ""
 
@@ -417,8 +417,9 @@ class Env:
     top-level def called by its bare name from the body, that context overlaid with the body's <%page>
     arguments and the current values of the body's <% %> assignments"""
 
-    def __init__(self, level, params, caller, inline=False, ctx=None, is_body=False):
+    def __init__(self, level, params, caller, inline=False, ctx=None, is_body=False, outer=None):
         self.level, self.params, self.caller, self.inline = level, params, caller, inline
+        self.outer = outer  # lexically enclosing callable of a nested def (A2(3))
         self.ctx = level.chain.ctx if ctx is None else ctx
         self.is_body = is_body
 
@@ -427,8 +428,9 @@ class Env:
 
 
 class Interp:
-    def __init__(self, files):
+    def __init__(self, files, strict=False):
         self.files = files
+        self.strict = strict  # Template(strict_undefined=True): an unresolvable name is a NameError (A2(8))
         self.out = [[]]
         self.hops = 0  # template-to-template resolutions performed
         self.nsdepth = 0
@@ -462,8 +464,11 @@ class Interp:
     # -- names (A2, the part C07 uses) -------------------------------------
     def lookup(self, name, env):
         lv = env.level
-        if name in env.params:
-            return env.params[name]
+        e = env
+        while e is not None:
+            if name in e.params:
+                return e.params[name]
+            e = e.outer
         if name in ("self", "local", "parent", "next"):
             v = lv.view(name)
             if v is not None:
@@ -495,6 +500,8 @@ class Interp:
             return ctx[name]
         if hasattr(builtins, name):
             return getattr(builtins, name)
+        if self.strict:
+            raise PyErr("NameError", "'%s' is not defined" % name)
         return UNDEF
 
     def entering(self, env):
@@ -553,6 +560,10 @@ class Interp:
     # -- statements ---------------------------------------------------------
     def run(self, stmts, env):
         self.entering(env)
+        for s in stmts:
+            if s[0] == "ndef":  # a def written inside this callable: a closure over it
+                d = s[1]
+                env.params[d["name"]] = RefCallable(self, d["name"], d["params"], d["body"], env.level, inline=env.inline, ctx=env.ctx, outer=env)
         for s in stmts:
             self.stmt(s, env)
 
@@ -652,6 +663,8 @@ class Interp:
             c = self.lookup("caller", env)
             self.pending_caller = None
             self.w(self.tostr(c.body()))
+        elif k == "ndef":
+            pass
         elif k == "assign":
             if not env.is_body:
                 raise DontCare("assignment outside a template body")
@@ -708,9 +721,9 @@ class Interp:
         base.body_callable()()
 
 
-def render(files, main, ctx):
+def render(files, main, ctx, strict=False):
     """expected outcome of lookup.get_template(main).render_unicode(**ctx); also returns the interpreter"""
-    it = Interp(files)
+    it = Interp(files, strict)
     try:
         try:
             path = resolve(main, None)
